@@ -19,10 +19,16 @@ SUBN = "history"
 
 RULE = ("history: a first 'create' followed by up to 14 (quick) / 26 (thorough) operations over a pool of DataSets, "
         "each drawn from {create (0..12 samples, d 1..3, lattice coordinates with ties in the extremes, duplicates, "
-        "single sample, empty, labels 0..3 and -1, unlabelled-only constructor), scale_range(override T/F), "
-        "scale_factor(scalar/vector, negative allowed, override T/F), shift_value(scalar/vector, override T/F), "
+        "single sample, empty, labels 0..3 and -1, unlabelled-only constructor; the arrays are handed to the constructor in a drawn "
+        "FORM: sample dtype float64 (1/2) / int64 / int32 / int16 (whole-number lattices with steps 1 and 3) / float32, memory layout C / "
+        "Fortran / every other column / every other row of a larger buffer / negative strides, shape (n,d) / (n,) for d=1 / (n,d,1) / "
+        "(n,1,d), labels int64 / int32 / float64 / a strided int64 view), scale_range(override T/F; range tuple of Python floats / "
+        "Python ints / numpy.float64), scale_factor(scalar/vector, negative allowed, override T/F), shift_value(scalar/vector, "
+        "override T/F) (scalar argument as Python float / Python int / numpy.int64 (whole numbers only) / numpy.float64, vector "
+        "argument as float64 / int64 (whole numbers only) / strided float64 ndarray), "
         "revert_scaling, shuffle, move_boundaries_to_front, split_labels, split_pieces(p incl. 0, 1, out of range), "
-        "split_without_labels, remove_samples (distinct in-range indices / one out-of-range index among them), "
+        "split_without_labels, remove_samples (distinct in-range indices / one out-of-range index among them; list of Python ints or "
+        "of numpy.int64), "
         "concatenate (any two pool members incl. itself), list_concatenate (1..5 members in drawn order: pool members, "
         "preferably-empty pool members, fresh empty sets built by DataSet(empty array) / DataSet((empty, empty)) / "
         "list_concatenate([]), at any position, repeats allowed; modelled as the pairwise fold of the concatenate model), "
@@ -37,7 +43,22 @@ RULE = ("history: a first 'create' followed by up to 14 (quick) / 26 (thorough) 
         "remove_labels). Distinct = distinct case dict.")
 
 ASSUMPTIONS = [
-    "samples are float64 arrays of shape (n, d), labels int64 >= -1 (what the constructor accepts)",
+    "samples and labels are handed in as numpy arrays (DataSet._initialize: a list in their place is refused with ValueError / "
+    "fails on .ndim, so lists of lists are not part of the domain). Nothing in the constructor, its documentation or its callers "
+    "restricts dtype, memory layout or shape: it computes d = size/len and reshapes, so (n,), (n,d) and (n,a,b) arrays are all "
+    "accepted. Generated: float64, float32, int64, int32, int16 samples (an integer table holds whole numbers), labels >= -1 as "
+    "int64, int32, float64 holding whole numbers (GridOperation hands float label arrays to DataSetRegression) or a strided view. NOT generated: unsigned integer "
+    "samples (numpy itself refuses uint8_array * -2 with a Python int), float16, numpy.float32 scalar arguments (1/f is then rounded "
+    "to float32: a revert error of 5e-7 that is the caller's choice of precision), list-valued factors/shifts (documented as float "
+    "or ndarray; TypeError)",
+    "the constructor keeps the caller's arrays (no copy) and move_boundaries_to_front swaps rows IN them: every DataSet gets a "
+    "private, writable buffer from the harness; arrays shared between two constructor calls and read-only arrays are outside the "
+    "statement (observations in notes/findings/C18_mbf_swaps_in_the_callers_arrays.py)",
+    "the model is float64 arithmetic on the values AS STORED in the array handed in (a float32 table is read back to float64 "
+    "first). For a lineage created from float32 samples 'up to rounding' means float32 rounding: every tolerance and the "
+    "ill-conditioning threshold below is multiplied by PREC_F4 = 1e5 (tolerance 1e-4*max(1,|coordinates|) = 840 eps(float32)); "
+    "integer samples are compared with the float64 tolerances (the unchanged library promotes them to float64 on the first "
+    "non-integral scaling)",
     "scale_range ranges satisfy lo < hi and are passed as tuples (scikit-learn's MinMaxScaler requires both)",
     "a constant dimension is mapped onto the lower range end by scale_range (MinMaxScaler convention)",
     "scale_range is not applied to a set in which some dimension has a non-zero extent below 1e-6*max(1,|coordinates|), in "
@@ -284,6 +305,7 @@ class Machine:
         self.max_tol = 0.0
         self.factor_before = {}
         self.max_revert_err = 0.0     # largest |restored - expected| in units of the tolerance
+        self.max_f4_err = 0.0         # the same for the current coordinates of float32 lineages (evidence for PREC_F4)
 
     # -- helpers --------------------------------------------------------------------------------------------------
     def bad(self, clause, msg):
@@ -428,6 +450,9 @@ class Machine:
                         cause = "label-array-overlaps-memory-of-the-operated-DataSet"
                 self.bad("data/%s/%s" % (d[0], cause), "DataSet #%d (%s) after %s: %s" % (e.eid, e.origin, op, d[1]))
                 failed = True
+            elif m.prec > 1.0 and m.n and role != "bystander":
+                perm, _ = match_rows(np, X, y, m.cur, m.lab, m.tol())
+                self.max_f4_err = max(self.max_f4_err, float(np.max(np.abs(X - m.cur[perm]))) / m.tol())
             if m.n == 0 and role == "product" and e.obj.is_empty():
                 self.adopt_attrs(e)
             else:
@@ -1268,7 +1293,8 @@ def run_history(case):
     mach.run(case["ops"])
     out.nontrivial = mach.nt
     out.info = dict(max_ops=len(case["ops"]), max_pool=len(mach.live()), max_tolerance=mach.max_tol,
-                    max_revert_error_in_units_of_tolerance=mach.max_revert_err)
+                    max_revert_error_in_units_of_tolerance=mach.max_revert_err,
+                    max_float32_error_in_units_of_tolerance=mach.max_f4_err)
     return out
 
 
@@ -1385,6 +1411,8 @@ def history_strategy(tier):
 
 def fixed_cases():
     c4 = ["create", "labelled", 1, [[1.0], [0.0], [3.0], [2.0]], [0, 1, 2, 3]]
+    table = [[3.0, 10.0], [7.0, 14.0], [0.0, 11.0], [12.0, 2.0], [5.0, 5.0], [9.0, 0.0], [1.0, 8.0], [6.0, 13.0]]
+    ci = lambda sd, layout: ["create", "labelled", 2, table, [0, 1, 1, 0, 2, 1, 0, -1], [sd, layout, "2d", "i4"]]
     return [
         # F-C18 (repaired): a piece of split_pieces shared its label array with the parent
         dict(rng=1, ops=[c4, ["split_pieces", 0, 0.75], ["mbf", 1]]),
@@ -1406,6 +1434,18 @@ def fixed_cases():
         # same range and factor, different position of the original data
         dict(rng=7, ops=[["create", "labelled", 1, [[0.0], [1.0], [2.0]], [0, 1, 0]], ["create", "labelled", 1, [[10.0], [11.0], [12.0]], [1, 1, 0]],
                          ["scale_range", 0, 0.0, 1.0, 0], ["scale_range", 1, 0.0, 1.0, 0], ["concatenate", 0, 1]]),
+        # a whole-number table handed in as an integer array; first scalings are a non-integral shift and factor
+        dict(rng=8, ops=[ci("i8", "C"), ["shift_value", 0, 0.5, 0, "float"], ["scale_factor", 0, 0.25, 0, "float"], ["mbf", 0],
+                         ["scale_range", 0, -1.0, 1.0, 0, 0, "int"], ["revert", 0]]),
+        dict(rng=9, ops=[ci("i4", "F"), ["scale_factor", 0, [0.5, -1.5, 1.0], 0, "float"], ["split_pieces", 0, 0.5],
+                         ["shift_value", -1, [0.25, 0.1, 0.0], 0, "np"], ["mbf", -1], ["revert", 0]]),
+        # the repository's own call forms: scale_range((0, 1)), scale_factor(-2), shift_value(5) with Python ints, here on integer samples
+        dict(rng=10, ops=[ci("i2", "cols"), ["scale_factor", 0, -2.0, 0, "int"], ["shift_value", 0, 5.0, 0, "int"], ["copy", 0],
+                          ["scale_factor", 0, 0.3, 0, "np"], ["revert", 0], ["scale_range", 1, 0.0, 1.0, 0, 0, "int"], ["revert", 1]]),
+        # float32 samples, strided labels, d = 1 handed in as a vector
+        dict(rng=11, ops=[["create", "labelled", 1, [[0.5], [-1.25], [2.0], [0.75], [2.0]], [0, 1, -1, 1, 0], ["f4", "rows", "flat", "strided"]],
+                          ["scale_range", 0, 0.005, 0.995, 0, 0, "float"], ["shuffle", 0], ["scale_factor", 0, 0.3, 0, "float"],
+                          ["remove_samples", 0, [1], "", "", "np"], ["revert", 0]]),
     ]
 
 
@@ -1457,6 +1497,33 @@ def selftest():
     mach.pool[0].obj._original_min = np.array([0.5])
     mach.run([["create", "empty", 1, [], []]])
     assert any("attrs/original_min" in s for s, _ in out.violations), out.violations
+    # 6. an integer-typed table: closed form of shift and factor in float64; samples cut back to whole numbers are rejected
+    out = Outcome()
+    mach = Machine(out)
+    mach.run([["create", "labelled", 2, [[3.0, 10.0], [7.0, 14.0], [0.0, 11.0]], [0, 1, 1], ["i8", "F", "2d", "i4"]]])
+    assert mach.pool[0].obj.get_data()[0].dtype.kind == "i" and mach.pool[0].obj.get_data()[1].dtype == np.int32
+    mach.run([["shift_value", 0, 0.5, 0, "float"], ["scale_factor", 0, 0.25, 0, "np"]])
+    assert not out.violations, out.violations
+    assert sorted(map(tuple, mach.pool[0].m.cur.tolist())) == [(0.125, 2.875), (0.875, 2.625), (1.875, 3.625)]
+    o = mach.pool[0].obj
+    o._data = (np.trunc(o._data[0]), o._data[1])
+    mach.run([["create", "empty", 1, [], []]])
+    assert any("data/samples" in s for s, _ in out.violations), out.violations
+    # 7. every form hands the constructor the same table, in the memory layout / dtype / shape its name says
+    mach = Machine(Outcome())
+    T = np.array([[1.0, -2.0, 4.0], [0.0, 5.0, 6.0], [3.0, 3.0, -7.0], [8.0, 1.0, 2.0]])
+    for sd in SAMPLE_DTYPES:
+        for layout in LAYOUTS:
+            for shape in SHAPES:
+                for lf in LABEL_FORMS:
+                    for d in (1, 3):
+                        A, y, Xs = mach.materialise(T[:, :d].copy(), [0, -1, 2, 1], [sd, layout, shape, lf])
+                        assert A.dtype == np.dtype(SAMPLE_DTYPES[sd]) and np.array_equal(Xs, T[:, :d]) and A.flags.writeable
+                        assert np.array_equal(np.reshape(A, (4, d)).astype(float), T[:, :d]) and y.tolist() == [0, -1, 2, 1]
+                        assert A.ndim == (1 if (shape == "flat" and d == 1) else 3 if shape.startswith("3d") else 2)
+                        if layout in ("cols", "rows", "rev") or (layout == "F" and d > 1):
+                            assert not A.flags.c_contiguous or A.size == A.shape[0] == 1, (layout, shape, d)
+                        assert (lf == "strided") == (not y.flags.c_contiguous)
     # 5. all deterministic cases are replayable from JSON
     import json
     for c in fixed_cases():
